@@ -741,7 +741,7 @@ def decorate_with_checker(func: CallableT) -> CallableT:
         async def wrapper(*args, **kwargs):  # type: ignore
             """Wrap func by checking the preconditions and postconditions."""
             kwargs_error = _assert_no_invalid_kwargs(kwargs)
-            if kwargs_error:
+            if kwargs_error is not None:
                 raise kwargs_error
 
             in_progress = _IN_PROGRESS.get()
@@ -772,13 +772,13 @@ def decorate_with_checker(func: CallableT) -> CallableT:
                 type_error = _assert_resolved_kwargs_valid(
                     postconditions, resolved_kwargs
                 )
-                if type_error:
+                if type_error is not None:
                     raise type_error
 
                 violation_error = await _assert_preconditions_async(
                     preconditions=preconditions, resolved_kwargs=resolved_kwargs
                 )
-                if violation_error:
+                if violation_error is not None:
                     raise violation_error
 
                 # Capture the snapshots
@@ -807,7 +807,7 @@ def decorate_with_checker(func: CallableT) -> CallableT:
                     violation_error = await _assert_postconditions_async(
                         postconditions=postconditions, resolved_kwargs=resolved_kwargs
                     )
-                    if violation_error:
+                    if violation_error is not None:
                         raise violation_error
                 finally:
                     _discard_in_progress(id_func)
@@ -819,7 +819,7 @@ def decorate_with_checker(func: CallableT) -> CallableT:
         def wrapper(*args, **kwargs):  # type: ignore
             """Wrap func by checking the preconditions and postconditions."""
             kwargs_error = _assert_no_invalid_kwargs(kwargs)
-            if kwargs_error:
+            if kwargs_error is not None:
                 raise kwargs_error
 
             in_progress = _IN_PROGRESS.get()
@@ -850,7 +850,7 @@ def decorate_with_checker(func: CallableT) -> CallableT:
                 type_error = _assert_resolved_kwargs_valid(
                     postconditions=postconditions, resolved_kwargs=resolved_kwargs
                 )
-                if type_error:
+                if type_error is not None:
                     raise type_error
 
                 violation_error = _assert_preconditions(
@@ -858,7 +858,7 @@ def decorate_with_checker(func: CallableT) -> CallableT:
                     resolved_kwargs=resolved_kwargs,
                     func=func,
                 )
-                if violation_error:
+                if violation_error is not None:
                     raise violation_error
 
                 # Capture the snapshots
@@ -889,7 +889,7 @@ def decorate_with_checker(func: CallableT) -> CallableT:
                         resolved_kwargs=resolved_kwargs,
                         func=func,
                     )
-                    if violation_error:
+                    if violation_error is not None:
                         raise violation_error
                 finally:
                     _discard_in_progress(id_func)
